@@ -54,6 +54,12 @@ RULE = (
     "compute_returns_and_advantage / get / reset sequences. policy: ActorCritic / DQN / SAC / TD3 policies (Mlp, "
     "MultiInput with an image key) on Box, image HWC/CHW, Discrete, MultiDiscrete, MultiBinary, Dict observations, "
     "predict (single / batched, deterministic or seeded) and obs_to_tensor. "
+    "learn (library as caller): DQN / TD3 / SAC / PPO / A2C learn() of 12-40 steps (net_arch=[4]) on 1-2 scripted "
+    "environments with frequent episode ends, Box or Dict observations, with/without VecNormalize and VecMonitor; a "
+    "recording wrapper outside everything and patched get_original_obs/get_original_reward/normalize_obs/unnormalize_obs "
+    "snapshot every object handed to the algorithm and re-check all of them before every env call, at every callback "
+    "on_step / on_rollout_end and at every buffer add; the buffer row written by add is compared with the returned "
+    "observation objects (non-terminal rows; terminal rows without VecNormalize). "
     "non-trivial = venv case with a reset directly after a step that ended an episode through >= 1 wrapper, or buffer "
     "case that wraps around and samples after the wrap, or policy case with a Dict or image observation; "
     "distinct = distinct canonical case"
@@ -367,12 +373,16 @@ def o_space(kind):
 
     if kind == "dictbox":
         return spaces.Dict({"vec": obs_space("box1"), "img": obs_space("image_hwc")})
+    if kind == "dictsmall":  # no image key, small Discrete: cheap to train on
+        return spaces.Dict({"vec": obs_space("box1"), "aux": obs_space("box2"), "phase": spaces.Discrete(8)})
     return obs_space(kind)
 
 
 def o_encode(tag, kind):
     if kind == "dictbox":
         return {"vec": encode(tag, "box1"), "img": encode(tag, "image_hwc")}
+    if kind == "dictsmall":
+        return {"vec": encode(tag, "box1"), "aux": encode(tag, "box2"), "phase": np.int64(tag % 8)}
     return encode(tag, kind)
 
 
@@ -382,7 +392,7 @@ class Env19(ScriptedEnv):
     place at every step/reset — whatever a VecEnv hands to its caller must not be those objects"""
 
     def __init__(self, env_id=0, obs_kind="box1", act_kind="discrete", script=None, reuse=False):
-        base_kind = "box1" if obs_kind == "dictbox" else obs_kind
+        base_kind = "box1" if obs_kind in ("dictbox", "dictsmall") else obs_kind
         super().__init__(env_id=env_id, obs_kind=base_kind, act_kind=act_kind, script=script, check_actions=False)
         self.kind19 = obs_kind
         self.observation_space = o_space(obs_kind)
@@ -410,8 +420,8 @@ class Env19(ScriptedEnv):
         return info
 
     def _out_obs(self, o):
-        if self.kind19 == "dictbox":
-            o = o_encode(make_tag(self.env_id, self.episode, self.step_in_ep), "dictbox")
+        if self.kind19 in ("dictbox", "dictsmall"):
+            o = o_encode(make_tag(self.env_id, self.episode, self.step_in_ep), self.kind19)
         if not self.reuse:
             return o
         if self._obs_buf is None:
@@ -1127,6 +1137,343 @@ def attribute(case, base, twin):
 
 
 # ======================================================================================================
+#  library-as-caller stream: the algorithms hold what the VecEnv / VecNormalize returned to them
+# ======================================================================================================
+WHAT_LIB = "the library (an algorithm, as the caller of its VecEnv) changed in place an object a VecEnv wrapper had returned to it"
+WHAT_ROW = "a buffer row differs from the object the VecEnv returned and the algorithm handed to add()"
+ON_POLICY = ("ppo", "a2c")
+
+
+class LearnProbe:
+    """everything the outermost recording wrapper and the patched VecNormalize methods returned, with snapshots"""
+
+    WINDOW = 160
+
+    def __init__(self, case):
+        self.case = case
+        self.held = []  # [obj, snap, source, call_no, extra]
+        self.findings = []
+        self.calls = 0
+        self.benign_bootstrap = 0
+        self.changed_parts = set()
+        self.prev_obs = None  # deep copies of the observation the algorithm acts on / stores (normalised view)
+        self.cur_obs = None
+        self.prev_orig = None
+        self.cur_orig = None
+        self.last_infos = None
+        self.last_dones = None
+        self.rows_checked = 0
+
+    def hold(self, obj, source, extra=None):
+        self.held.append([obj, snap(obj), source, self.calls, extra])
+        if len(self.held) > self.WINDOW:
+            del self.held[: len(self.held) - self.WINDOW]
+
+    def recheck(self, at):
+        for h in self.held:
+            now = snap(h[0])
+            if now == h[1]:
+                continue
+            where = diff_path(h[1], now, h[2])
+            part = h[2].split(".")[-1]
+            if (h[2] == "step.rewards" and self.case["algo"] in ON_POLICY and h[4] is not None
+                    and self._is_bootstrap(h)):
+                self.benign_bootstrap += 1
+            else:
+                self.changed_parts.add(part)
+                self.findings.append({"kind": "lib_changed_returned", "returned_by": h[2], "detected_at": at,
+                                      "returned_at_call": h[3], "detected_at_call": self.calls, "where": where})
+            h[1] = now
+
+    @staticmethod
+    def _is_bootstrap(h):
+        """on-policy timeout bootstrapping adds gamma*V(terminal) to the rewards array of truncated episode ends, in
+        place (rewards are outside the sentence of C19): only those entries may differ"""
+        before, dones, truncs = h[4]
+        now = np.asarray(h[0])
+        if now.shape != before.shape:
+            return False
+        for i in range(len(before)):
+            if now[i] != before[i] and not (dones[i] and truncs[i]):
+                return False
+        return True
+
+
+def make_recorder(venv, probe):
+    from stable_baselines3.common.vec_env.base_vec_env import VecEnvWrapper
+
+    class Recorder19(VecEnvWrapper):
+        def reset(self):
+            probe.recheck("env.reset")
+            obs = self.venv.reset()
+            probe.calls += 1
+            probe.hold(obs, "reset.obs")
+            probe.prev_obs, probe.cur_obs = probe.cur_obs, copy.deepcopy(obs)
+            return obs
+
+        def step_async(self, actions):
+            probe.recheck("env.step")
+            self.venv.step_async(actions)
+
+        def step_wait(self):
+            obs, rewards, dones, infos = self.venv.step_wait()
+            probe.calls += 1
+            probe.hold(obs, "step.obs")
+            truncs = [bool(i.get("TimeLimit.truncated", False)) for i in infos]
+            probe.hold(rewards, "step.rewards", (np.array(rewards, copy=True), np.array(dones, copy=True), truncs))
+            probe.hold(dones, "step.dones")
+            probe.hold(infos, "step.infos")
+            probe.prev_obs, probe.cur_obs = probe.cur_obs, copy.deepcopy(obs)
+            probe.last_infos, probe.last_dones = copy.deepcopy(infos), np.array(dones, copy=True)
+            return obs, rewards, dones, infos
+
+    return Recorder19(venv)
+
+
+def patch_vecnormalize(vn, probe):
+    """record what the public helpers of the VecNormalize instance return (to the algorithm and to the buffers)"""
+    for name in ("get_original_obs", "get_original_reward", "normalize_obs", "unnormalize_obs"):
+        orig = getattr(vn, name)
+
+        def wrapped(*a, _orig=orig, _name=name, **k):
+            r = _orig(*a, **k)
+            probe.hold(r, _name + ".result")
+            if _name == "get_original_obs":
+                probe.prev_orig, probe.cur_orig = probe.cur_orig, copy.deepcopy(r)
+            return r
+
+        setattr(vn, name, wrapped)
+
+
+def _rows_equal(stored, expected, rows):
+    """stored: buffer slot (n_envs, ...) ; expected: batched observation; compare the given env rows after casting"""
+    st = np.asarray(stored)
+    ex = np.asarray(expected).astype(st.dtype).reshape(st.shape)
+    return all(np.array_equal(st[i], ex[i]) for i in rows)
+
+
+def check_row(probe, buf, field, pos, expected, rows, off_policy):
+    if expected is None or not rows:
+        return
+    store = getattr(buf, field)
+    ok = True
+    if isinstance(store, dict):
+        for k in store:
+            ok = ok and _rows_equal(store[k][pos], expected[k], rows)
+    else:
+        ok = _rows_equal(store[pos], expected, rows)
+    probe.rows_checked += 1
+    if not ok:
+        probe.findings.append({"kind": "stored_row_differs", "returned_by": "step.obs/reset.obs/get_original_obs",
+                               "detected_at": "buffer.add", "field": field, "detected_at_call": probe.calls,
+                               "returned_at_call": probe.calls - (1 if field == "observations" else 0), "where": field})
+
+
+def patch_buffer(model, probe, has_vn):
+    off = probe.case["algo"] not in ON_POLICY
+    buf = model.replay_buffer if off else model.rollout_buffer
+    orig = buf.add
+
+    def add(*a, **k):
+        probe.recheck("buffer.add")
+        pos = buf.pos
+        r = orig(*a, **k)
+        n = probe.case["n"]
+        if off:
+            exp_obs = probe.prev_orig if has_vn else probe.prev_obs
+            exp_next = probe.cur_orig if has_vn else probe.cur_obs
+            check_row(probe, buf, "observations", pos, exp_obs, list(range(n)), True)
+            dones = probe.last_dones if probe.last_dones is not None else np.zeros(n, dtype=bool)
+            check_row(probe, buf, "next_observations", pos, exp_next, [i for i in range(n) if not dones[i]], True)
+            if not has_vn and probe.last_infos is not None:
+                for i in range(n):
+                    if dones[i] and probe.last_infos[i].get("terminal_observation") is not None:
+                        t = probe.last_infos[i]["terminal_observation"]
+                        store = buf.next_observations
+                        if isinstance(store, dict):
+                            okk = all(np.array_equal(np.asarray(store[kk][pos][i]).reshape(-1),
+                                                     np.asarray(t[kk]).astype(store[kk].dtype).reshape(-1)) for kk in store)
+                        else:
+                            okk = np.array_equal(np.asarray(store[pos][i]).reshape(-1),
+                                                 np.asarray(t).astype(store.dtype).reshape(-1))
+                        probe.rows_checked += 1
+                        if not okk:
+                            probe.findings.append({"kind": "stored_row_differs", "returned_by": "step.infos",
+                                                   "detected_at": "buffer.add", "field": "next_observations(terminal)",
+                                                   "detected_at_call": probe.calls, "returned_at_call": probe.calls,
+                                                   "where": "terminal_observation"})
+        else:
+            check_row(probe, buf, "observations", pos, probe.prev_obs, list(range(n)), False)
+        return r
+
+    buf.add = add
+
+
+def run_learn(case):
+    import torch
+    from stable_baselines3 import A2C, DQN, PPO, SAC, TD3
+    from stable_baselines3.common.callbacks import BaseCallback
+    from stable_baselines3.common.vec_env import DummyVecEnv, VecMonitor, VecNormalize
+
+    probe = LearnProbe(case)
+    n = case["n"]
+    fns = [Env19Fn(env_id=i, obs_kind=case["obs"], act_kind=case["act"], script=case["scripts"][i],
+                   reuse=bool(case.get("reuse"))) for i in range(n)]
+    venv = DummyVecEnv(fns)
+    if case.get("monitor"):
+        venv = VecMonitor(venv)
+    vn = None
+    if case.get("vn"):
+        keys = ["vec", "aux"] if case["obs"] == "dictsmall" else None
+        vn = VecNormalize(venv, norm_obs=case["vn"].get("norm_obs", True), norm_reward=case["vn"].get("norm_reward", True),
+                          clip_obs=case["vn"].get("clip_obs", 10.0), norm_obs_keys=keys if case["vn"].get("norm_obs", True) else None)
+        venv = vn
+        patch_vecnormalize(vn, probe)
+    env = make_recorder(venv, probe)
+    policy = "MultiInputPolicy" if case["obs"] == "dictsmall" else "MlpPolicy"
+    pk = dict(net_arch=[4])
+    algo = case["algo"]
+    common_kw = dict(policy_kwargs=pk, device="cpu", verbose=0, seed=case["seed"])
+    torch.manual_seed(case["seed"])
+    np.random.seed(case["seed"])
+    if algo == "dqn":
+        model = DQN(policy, env, learning_starts=case["ls"], buffer_size=case["buf"], batch_size=4, train_freq=case["tf"],
+                    gradient_steps=1, target_update_interval=5, **common_kw)
+    elif algo == "td3":
+        model = TD3(policy, env, learning_starts=case["ls"], buffer_size=case["buf"], batch_size=4, train_freq=case["tf"],
+                    gradient_steps=1, **common_kw)
+    elif algo == "sac":
+        model = SAC(policy, env, learning_starts=case["ls"], buffer_size=case["buf"], batch_size=4, train_freq=case["tf"],
+                    gradient_steps=1, **common_kw)
+    elif algo == "ppo":
+        model = PPO(policy, env, n_steps=case["n_steps"], batch_size=case["n_steps"] * n, n_epochs=1, **common_kw)
+    elif algo == "a2c":
+        model = A2C(policy, env, n_steps=case["n_steps"], **common_kw)
+    else:
+        raise InfraError(f"bad algo {algo}")
+    patch_buffer(model, probe, vn is not None)
+
+    class Cb(BaseCallback):
+        def _on_step(self):
+            probe.recheck("callback.on_step")
+            return True
+
+        def _on_rollout_end(self):
+            probe.recheck("callback.on_rollout_end")
+
+    try:
+        with warnings.catch_warnings():
+            warnings.simplefilter("ignore")
+            model.learn(total_timesteps=case["total"], callback=Cb())
+        probe.recheck("learn.end")
+        # which of the last returned objects does the algorithm still hold (identity)
+        kept = [x for x in (getattr(model, "_last_obs", None), getattr(model, "_last_original_obs", None),
+                            getattr(model, "_last_episode_starts", None)) if x is not None]
+        kept_arrays, kept_conts = [], set()
+        for x in kept:
+            a, c = leaves(x)
+            kept_arrays.extend(a)
+            kept_conts.update(id(cc) for cc in c)
+        idx = MemIndex(kept_arrays)
+        retained_parts = set()
+        for obj, _, source, _, _ in probe.held[-12:]:
+            a, c = leaves(obj)
+            if any(idx.overlaps(x) for x in a) or any(id(cc) in kept_conts for cc in c):
+                retained_parts.add(source)
+    finally:
+        env.close()
+    return probe, retained_parts
+
+
+LEARN_PARTS = {"reset.obs": "obs", "step.obs": "obs", "step.rewards": "rewards", "step.dones": "dones",
+               "step.infos": "infos", "get_original_obs.result": "original_obs",
+               "get_original_reward.result": "original_reward", "normalize_obs.result": "normalized_obs",
+               "unnormalize_obs.result": "normalized_obs"}
+
+
+def gen_learn(rng, widen, thorough):
+    algo = rng.weighted([("dqn", 3), ("td3", 2), ("sac", 2), ("ppo", 2), ("a2c", 2)])
+    if algo == "dqn":
+        act = "discrete"
+    elif algo in ("td3", "sac"):
+        act = rng.choice(["box", "box_sym"])
+    else:
+        act = rng.choice(["discrete", "box", "box_sym", "multidiscrete"])
+    n = rng.randint(1, 2)
+    obs = rng.weighted([("box1", 3), ("box2", 2), ("dictsmall", 3)])
+    style = rng.weighted([("len1", 2), ("mixed", 4), ("both", 1), ("trunc_only", 2), ("term_only", 1)])
+    case = {"kind": "learn", "algo": algo, "obs": obs, "act": act, "n": n,
+            "scripts": [gen_script(rng, rng.randint(2, 6), style) for _ in range(n)],
+            "total": rng.randint(12, 40 if not widen else 60), "seed": rng.randint(0, 2**31 - 1),
+            "monitor": rng.chance(0.4), "reuse": rng.chance(0.3)}
+    if rng.chance(0.6):
+        case["vn"] = {"norm_obs": rng.chance(0.85), "norm_reward": rng.chance(0.7), "clip_obs": rng.choice([10.0, 1e6, 0.5])}
+    if algo in ON_POLICY:
+        case["n_steps"] = rng.randint(3, 8)
+    else:
+        case["ls"] = rng.randint(0, 8)
+        case["buf"] = rng.choice([6, 12, 50])
+        case["tf"] = rng.randint(1, 3)
+    return case
+
+
+def check_learn(ctx, case, ops, plan, pending):
+    rep = ctx.report
+    try:
+        probe, retained = run_learn(case)
+    except InfraError:
+        raise
+    except Exception as e:
+        import traceback
+
+        rep.case(case, None)
+        rep.violation("unexpected exception from the implementation on a valid call sequence", case,
+                      {"kind": "exception", "exception": type(e).__name__, "case_kind": "learn"},
+                      traceback.format_exc()[-1500:])
+        return
+    ends = sum(1 for h in probe.held if h[2] == "step.dones" and np.any(h[0]))
+    rep.case(case, case if (case.get("vn") and ends > 0) else None)
+    rep.count(f"learn:{case['algo']}" + (":vn" if case.get("vn") else "") + f":{case['obs']}")
+    rep.count("learn_env_calls", probe.calls)
+    rep.count("learn_buffer_rows_checked", probe.rows_checked)
+    if probe.benign_bootstrap:
+        rep.count("learn_onpolicy_timeout_bootstrap_rewards_in_place(outside_statement)", probe.benign_bootstrap)
+    if probe.findings:
+        order = {"lib_changed_returned": 0, "stored_row_differs": 1}
+        f = sorted(probe.findings, key=lambda x: (order[x["kind"]], x["detected_at_call"]))[0]
+        sig = {"kind": f["kind"], "algo": case["algo"], "family": "on_policy" if case["algo"] in ON_POLICY else "off_policy",
+               "returned_by": f["returned_by"], "detected_at": f["detected_at"], "vecnormalize": bool(case.get("vn"))}
+        if "field" in f:
+            sig["field"] = f["field"]
+        pending.append((0, WHAT_LIB if f["kind"] == "lib_changed_returned" else WHAT_ROW, case, sig,
+                        {"first": f, "all": probe.findings[:8]}))
+    # model op: the algorithm as the caller of the wrapper — which parts it changed / still holds
+    seen_parts = []
+    for h in probe.held:
+        p = LEARN_PARTS.get(h[2])
+        if p and p not in seen_parts:
+            seen_parts.append(p)
+    mutated_parts = {LEARN_PARTS.get(f["returned_by"]) for f in probe.findings if f["kind"] == "lib_changed_returned"}
+    args = []
+    for p in seen_parts:
+        srcs = [s for s, pp in LEARN_PARTS.items() if pp == p]
+        if p in mutated_parts:
+            cl = "mutated"
+        elif any(s in retained for s in srcs):
+            cl = "retained"
+        else:
+            cl = "clean"
+        args.append([p, cl])
+    fam = "OnPolicyAlgorithm" if case["algo"] in ON_POLICY else "OffPolicyAlgorithm"
+    if probe.benign_bootstrap:
+        args = [[p, "mutated" if p == "rewards" else c] for p, c in args]
+    plan.append((case, {"calls": [{"op": "learn", "args": OrderedDict(args), "res": OrderedDict(), "changed": []}],
+                        "label": fam}, {"diff_calls": [], "findings": []}, len(ops)))
+    ops.append({"op": "case", "calls": [{"target": {"kind": "row", "cls": fam, "call": "learn", "variant": ""},
+                                         "args": args, "res": []}]})
+
+
+# ======================================================================================================
 #  generators
 # ======================================================================================================
 ACTS = ["box", "box_sym", "discrete", "multidiscrete", "multibinary"]
@@ -1367,10 +1714,43 @@ def gen_cases(ctx):
         cases.append(gen_buffer(rng, ctx.widen, ctx.thorough))
     for _ in range(ctx.budget(200, 2000)):
         cases.append(gen_policy(rng, ctx.widen, ctx.thorough))
+    for _ in range(ctx.budget(72, 720)):
+        cases.append(gen_learn(rng, ctx.widen, ctx.thorough))
     return cases
 
 
+def shrink_learn(case):
+    if case["total"] > 4:
+        for t in (case["total"] // 2, case["total"] - 4, case["total"] - 1):
+            if 1 <= t < case["total"]:
+                c = dict(case)
+                c["total"] = t
+                yield c
+    if case["n"] > 1:
+        c = dict(case)
+        c["n"] = 1
+        c["scripts"] = case["scripts"][:1]
+        yield c
+    for f in ("monitor", "reuse"):
+        if case.get(f):
+            c = dict(case)
+            c[f] = False
+            yield c
+    if case["obs"] != "box1":
+        c = dict(case)
+        c["obs"] = "box1"
+        yield c
+    for i, sc in enumerate(case["scripts"]):
+        if len(sc) > 1:
+            c = dict(case)
+            c["scripts"] = [x if j != i else x[:-1] for j, x in enumerate(case["scripts"])]
+            yield c
+
+
 def shrink_candidates(case):
+    if case.get("kind") == "learn":
+        yield from shrink_learn(case)
+        return
     ops = case["ops"]
     # drop one call (the first reset of a VecEnv stays)
     lo = 1 if case["kind"] == "venv" else 0
@@ -1460,7 +1840,7 @@ def nontrivial(case, base):
             elif o["op"] == "sample" and adds > case["size"]:
                 return True
         return False
-    return case["obs"] in ("pdict", "pdict_img", "pimg_hwc", "pimg_chw")
+    return case["obs"] in ("pdict", "pdict_img", "pimg_hwc", "pimg_chw")  # (learn cases: VecNormalize and >= 1 episode end)
 
 
 VN_OPS = ("get_original_obs", "get_original_reward", "normalize_obs", "unnormalize_obs", "normalize_reward")
@@ -1477,6 +1857,10 @@ def validate(case):
             raise ValueError("invalid case: VecNormalize call without a VecNormalize layer")
         if len(case["scripts"]) != case["n"]:
             raise ValueError("invalid case: scripts")
+    elif kind == "learn":
+        if len(case["scripts"]) != case["n"] or case["total"] < 1:
+            raise ValueError("invalid case: learn")
+        return
     elif kind not in ("buffer", "policy"):
         raise ValueError("invalid case kind")
     if not case["ops"]:
@@ -1490,6 +1874,9 @@ def check_cases(ctx, cases):
         validate(case)
         kind = case.get("kind")
         rep.count(f"kind:{kind}")
+        if kind == "learn":
+            check_learn(ctx, case, ops, plan, pending)
+            continue
         try:
             base = run_base(case)
             twin = run_twin(case, base)
